@@ -10,16 +10,25 @@
 volatile int g_myth_init_state = myth_init_state_initialized; myth_globalattr_t g_attr; myth_steal_func_t g_myth_steal_func;
 __thread unsigned int g_myth_random_temp; int g_sched_prof; myth_tls_key_allocator_t g_myth_tls_key_allocator[1];
 static struct myth_running_env EV; myth_running_env_t g_envs = &EV; int g_envs_sz = 1; __thread int g_worker_rank;
-static struct myth_thread POOL[NMAX + 1];      /* needs --max-field-sensitivity-array-size > NMAX (else 14 GB at n = 64) */
+#ifndef ALIAS
+#define ALIAS 0
+#endif
+static struct myth_thread POOL[ALIAS ? 2 : NMAX + 1];      /* needs --max-field-sensitivity-array-size > NMAX (else 14 GB at n = 64) */
 static long n, npop, npush, nnull; static int early_push, bad_push;
+#if ALIAS   /* order-only variant for large n: every collected sleeper is the same descriptor (the code under test never compares sleepers, it only chains
+             * them through ->next, so a self-loop chain of length n is traversed exactly like n distinct ones); identity/once-each is decided by the ALIAS=0 variant */
+#define SLOT(k) 0
+#else
+#define SLOT(k) (k)
+#endif
 myth_sleep_queue_item_t stub_pop(myth_sleep_stack_t *s){ (void)s;
-  long k = npop < NMAX ? npop : NMAX; npop++; return (myth_sleep_queue_item_t)&POOL[k]; }
+  long k = npop < NMAX ? npop : NMAX; npop++; return (myth_sleep_queue_item_t)&POOL[SLOT(k)]; }
 myth_sleep_queue_item_t stub_deq(myth_sleep_queue_t *q){ (void)q;
-  long k = npop < NMAX ? npop : NMAX; npop++; return (myth_sleep_queue_item_t)&POOL[k]; }
+  long k = npop < NMAX ? npop : NMAX; npop++; return (myth_sleep_queue_item_t)&POOL[SLOT(k)]; }
 void stub_push(myth_thread_queue_t q, struct myth_thread *th){
   if (q != &EV.runnable_q) bad_push = 1;
   if (npop < n) early_push = 1;                                         /* published before all n were collected */
-  if (th != &POOL[npush < NMAX ? npush : NMAX]) bad_push = 1;           /* every collected sleeper is published exactly once, in order */
+  if (th != &POOL[SLOT(npush < NMAX ? npush : NMAX)]) bad_push = 1;           /* every collected sleeper is published exactly once, in order */
   npush++; }
 int main(void){
   EV.rank = 0;
